@@ -231,3 +231,13 @@ class AttrMust(MustAnalysis):
                     continue
                 if "a:" + a not in state.tokens and a not in self.exposed:
                     self.exposed[a] = (getattr(n, "lineno", 0), self.fi.file, self.fi.qual, describe(state.facts), [])
+            # getattr(self, "a_", default) reads the attribute of an earlier call just the same
+            if isinstance(n, ast.Call) and isinstance(n.func, ast.Name) and n.func.id == "getattr" and len(n.args) >= 2 \
+                    and isinstance(n.args[0], ast.Name) and n.args[0].id in self.self_names \
+                    and isinstance(n.args[1], ast.Constant) and isinstance(n.args[1].value, str) \
+                    and fitted_name(n.args[1].value):
+                a = n.args[1].value
+                if a in self.class_level or self.p.find_method(self.ci, a) is not None:
+                    continue
+                if "a:" + a not in state.tokens and a not in self.exposed:
+                    self.exposed[a] = (getattr(n, "lineno", 0), self.fi.file, self.fi.qual, describe(state.facts), [])
